@@ -24,7 +24,7 @@ K = W.K
 R = W.ROOT
 
 RULE = ('histories of attribute operations (path/files/filepaths setters and list mutations, '
-        'glob filter edits, name, piece_size, piece_size_min/max, generate, comment) on a fresh '
+        'glob filter edits, regex filter edits incl. batch updates with an invalid pattern and held lists (no model), name, piece_size, piece_size_min/max, generate, comment) on a fresh '
         'Torrent over five content trees with the real default bounds: corpus + enumerated '
         '(hash-then-every-pair-of-operations, also from a piece length of 32 MiB under an explicit '
         'maximum followed by a bound reset, and bound-assignment-across-the-other-bound followed by '
@@ -67,8 +67,29 @@ def match_bound_across(case, observed, finding):
             and observed['pre']['pmin'] <= observed['pre']['pmax'])
 
 
+def match_attr_iadd(case, observed, finding):
+    """D09d: the first deviation is directly after an ATTRIBUTE-level `+=` on a filter list
+    (`t.exclude_globs += [...]`: extend, then the setter with the list itself) that left a
+    non-pattern (None) in a filter list whose items were all patterns before; a regex list
+    additionally raises TypeError from re.compile(None) before anything else changes (so hashes,
+    if present, are still there, and the files still follow the pattern that extend applied and the
+    setter then threw away).  `lst += [...]` on a local name, extend, assignment never match."""
+    codes = set(observed.get('codes', []))
+    pre = observed.get('pre') or {}
+    if observed['op']['k'] not in ('globIaddAttr', 'rxIaddAttr') or not pre.get('filterTypesOk'):
+        return False
+    if 'filter-list-holds-a-non-pattern' not in codes:
+        return False
+    if observed['op']['k'] == 'globIaddAttr':
+        return codes == {'filter-list-holds-a-non-pattern'} and observed.get('res') == 'ok'
+    return (observed.get('res') == 'TypeError' and 'undocumented-exception-TypeError' in codes
+            and codes <= {'filter-list-holds-a-non-pattern', 'undocumented-exception-TypeError',
+                          'pieces-survived-filter-change', 'files-do-not-follow-filters'})
+
+
 MATCHERS = {
     'bound_assigned_across_other_bound': match_bound_across,
+    'attribute_level_iadd_on_filter_list': match_attr_iadd,
 }
 
 # ---------------------------------------------------------------------------------------------
@@ -304,6 +325,171 @@ def enumerated(ctx):
     return out
 
 
+# ---------------------------------------------------------------------------------------------
+# regular-expression filter lists, batch updates that fail half-way, held filter lists.
+# No Lean model: these histories are implementation-vs-specification checks (spec_check +
+# attrs_world.filter_codes on the real object), outside the hypothesis of the theorems.
+
+RX_VALID = [r'\.tmp$', r'/sub/', r'a$', r'(?i)\.TMP$', r'[bd]$', r'x$', r'^A/sub', r'f$', r'e\.']
+RX_INVALID = ['(', '[a', '*x', 'a{2,1}']
+
+
+def _rx(k, inc=False, held=False, **kw):
+    return dict(k=k, inc=inc, held=held, **kw)
+
+
+def rx_track(cur, op):
+    """generator-side copy of one regex list under Python's list semantics of the unchanged code
+    (only used to keep `lst[a:b] = value` / attribute assignment inside the modelled domain:
+    duplicate-free values disjoint from the current list)"""
+    k = op['k']
+    if k == 'rxAppend':
+        if W.rx_valid(op['p']) and op['p'] not in cur:
+            cur.append(op['p'])
+    elif k in ('rxExtend', 'rxIadd'):
+        for p in op['ps']:
+            if not W.rx_valid(p):
+                break
+            if p not in cur:
+                cur.append(p)
+    elif k == 'rxSet':
+        if all(W.rx_valid(p) for p in op['ps']):
+            cur[:] = op['ps']
+    elif k == 'rxSetSlice':
+        if all(W.rx_valid(p) for p in op['ps']):
+            cur[op['a']:op['b']] = op['ps']
+    elif k == 'rxDel':
+        if cur:
+            del cur[op['i'] % len(cur)]
+    elif k == 'rxClear':
+        cur.clear()
+
+
+def g_rx_op(rng, cur, inc, held):
+    kind = rng.choice(['rxAppend', 'rxAppend', 'rxExtend', 'rxExtend', 'rxIadd', 'rxSet', 'rxSetSlice', 'rxDel', 'rxClear'])
+    fresh = [p for p in RX_VALID if p not in cur]
+    rng.shuffle(fresh)
+    def batch(pool, lo, hi, p_bad):
+        ps = list(pool[:rng.randint(lo, hi)])
+        if rng.random() < p_bad:
+            ps.insert(rng.randint(0, len(ps)), rng.choice(RX_INVALID))
+        return ps
+    if kind == 'rxAppend':
+        r = rng.random()
+        op = _rx(kind, inc, held, p=rng.choice(RX_INVALID) if r < 0.25 else rng.choice(RX_VALID))
+    elif kind in ('rxExtend', 'rxIadd'):
+        pool = [rng.choice(RX_VALID) for _ in range(3)]
+        op = _rx(kind, inc, held, ps=batch(pool, 0, 3, 0.5))
+    elif kind == 'rxSet':
+        op = _rx(kind, inc, False, ps=batch(fresh, 0, 2, 0.35))
+    elif kind == 'rxSetSlice':
+        n = len(cur)
+        a = rng.randint(0, n)
+        op = _rx(kind, inc, held, a=a, b=a, ps=batch(fresh, 1, 2, 0.4))      # insertion of new patterns
+    elif kind == 'rxDel':
+        op = _rx(kind, inc, held, i=rng.randrange(4))
+    else:
+        op = _rx(kind, inc, held)
+    rx_track(cur, op)
+    return op
+
+
+def g_rx_history(rng, maxlen):
+    cur = {False: [], True: []}
+    globs = {False: [], True: []}
+    ops = [{'k': 'setPath', 'p': rng.choice([R + ['A'], R + ['A'], R + ['A'], R + ['B'], R + ['S'], R + ['F5']])}]
+    if rng.random() < 0.5:
+        ops.append({'k': 'generate'})
+    n = rng.randint(3, maxlen)
+    while len(ops) < n:
+        r = rng.random()
+        if r < 0.6:
+            inc = rng.random() < 0.3
+            ops.append(g_rx_op(rng, cur[inc], inc, rng.random() < 0.5))
+        elif r < 0.8:
+            ops.append({'k': 'generate'})
+        elif r < 0.86:
+            ops.append({'k': 'setPath', 'p': rng.choice([R + ['A'], R + ['A'], R + ['S'], R + ['B'], None])})
+        elif r < 0.92:
+            ops.append({'k': 'setPieceSize', 'v': K * rng.choice([1, 2, 3, 4])})
+        elif r < 0.97:
+            ops.append(g_op(rng, globs, True) if False else
+                       {'k': 'globAppend', 'inc': rng.random() < 0.3, 'g': rng.choice(GLOBS)})
+        else:
+            ops.append({'k': 'setComment', 'c': 'x'})
+    return ops
+
+
+def enumerated_rx(ctx):
+    """content, (hashing), one batch update of a regex list — successful, or failing at the start /
+    in the middle / at the end —, (hashing), then one or two more edits of the same list (through the
+    attribute again or through the list object held since the first edit)"""
+    out = []
+    V1, V2, V3, V4 = r'\.tmp$', r'a$', r'/sub/', r'[bd]$'
+    BADP = '('
+    for inc in (False, True):
+        for held in (False, True):
+            first = [
+                _rx('rxExtend', inc, held, ps=[V1, BADP]), _rx('rxExtend', inc, held, ps=[BADP, V1]),
+                _rx('rxExtend', inc, held, ps=[V1, V2, BADP, V3]), _rx('rxExtend', inc, held, ps=[V1, V2]),
+                _rx('rxIadd', inc, held, ps=[V1, BADP]), _rx('rxIadd', inc, held, ps=[BADP]),
+                _rx('rxSet', inc, False, ps=[V1, BADP]), _rx('rxSet', inc, False, ps=[V1, V2]),
+                _rx('rxSetSlice', inc, held, a=0, b=0, ps=[V1, '[a']), _rx('rxSetSlice', inc, held, a=0, b=0, ps=[V1]),
+                _rx('rxAppend', inc, held, p='*x'), _rx('rxAppend', inc, held, p=V1),
+            ]
+            then = [
+                _rx('rxAppend', inc, held, p=V2), _rx('rxAppend', inc, held, p=BADP),
+                _rx('rxExtend', inc, held, ps=[V4, V3]), _rx('rxExtend', inc, held, ps=[V4, 'a{2,1}']),
+                _rx('rxSet', inc, False, ps=[r'e\.']), _rx('rxSet', inc, False, ps=[]),
+                _rx('rxDel', inc, held, i=0), _rx('rxClear', inc, held),
+                _rx('rxAppend', not inc, held, p=V2),
+                {'k': 'globAppend', 'inc': inc, 'g': ['suffix', 'a']},
+            ]
+            for pre in ([{'k': 'setPath', 'p': R + ['A']}], [{'k': 'setPath', 'p': R + ['A']}, {'k': 'generate'}]):
+                for f in first:
+                    for mid in ([], [{'k': 'generate'}]):
+                        for a in then:
+                            out.append(pre + [f] + mid + [a])
+                            if ctx.thorough or (held and a is then[0]):
+                                for b in then[:8:2]:
+                                    out.append(pre + [f] + mid + [a, {'k': 'generate'}, b])
+    # attribute-level `+=` (getter, extend, then the setter with the list itself): open finding D09d
+    for pre in ([{'k': 'setPath', 'p': R + ['A']}], [{'k': 'setPath', 'p': R + ['A']}, {'k': 'generate'}]):
+        for inc in (False, True):
+            for a in ({'k': 'globIaddAttr', 'inc': inc, 'gs': [['suffix', '.tmp']]}, {'k': 'globIaddAttr', 'inc': inc, 'gs': []},
+                      _rx('rxIaddAttr', inc, False, ps=[V1]), _rx('rxIaddAttr', inc, False, ps=[]),
+                      _rx('rxIaddAttr', inc, False, ps=[V1, BADP]), _rx('rxIaddAttr', inc, False, ps=[BADP])):
+                out.append(pre + [a])
+                out.append(pre + [a, {'k': 'generate'}, _rx('rxAppend', inc, False, p=V2)])
+                out.append(pre + [_rx('rxAppend', inc, False, p=V2), {'k': 'globAppend', 'inc': inc, 'g': ['suffix', 'a']}, a])
+    return out
+
+
+def rx_cases(ctx, scale=1.0):
+    cases = []
+    d = os.path.join(common.CORPUS_DIR, 'C09')
+    if os.path.isdir(d):
+        for fn in sorted(os.listdir(d)):
+            if fn.endswith('.json'):
+                j = json.load(open(os.path.join(d, fn)))
+                if _is_rx(j['ops']):
+                    cases.append({'ops': j['ops'], 'src': 'corpus:' + fn})
+    for f in ctx.open_findings():
+        w = f.get('witness', {})
+        if 'ops' in w and _is_rx(w['ops']):
+            cases.append({'ops': w['ops'], 'src': 'witness:' + f['id'], 'witness': f['id']})
+    for ops in enumerated_rx(ctx):
+        cases.append({'ops': ops, 'src': 'enumerated-rx'})
+    maxlen = 12 if ctx.thorough else 8
+    for _ in range(int(ctx.n(700, 40000) * scale)):
+        cases.append({'ops': g_rx_history(ctx.rng, maxlen), 'src': 'random-rx'})
+    return cases
+
+
+def _is_rx(ops):
+    return any(o['k'] in W.RX_OPS or o['k'] == 'globIaddAttr' for o in ops)
+
+
 def corpus_cases(ctx):
     out = []
     d = os.path.join(common.CORPUS_DIR, 'C09')
@@ -311,10 +497,11 @@ def corpus_cases(ctx):
         for fn in sorted(os.listdir(d)):
             if fn.endswith('.json'):
                 j = json.load(open(os.path.join(d, fn)))
-                out.append({'ops': j['ops'], 'src': 'corpus:' + fn})
+                if not _is_rx(j['ops']):          # regex histories have no model: see rx_cases
+                    out.append({'ops': j['ops'], 'src': 'corpus:' + fn})
     for f in ctx.open_findings():
         w = f.get('witness', {})
-        if 'ops' in w:
+        if 'ops' in w and not _is_rx(w['ops']):
             out.append({'ops': w['ops'], 'src': 'witness:' + f['id'], 'witness': f['id']})
     return out
 
@@ -440,6 +627,48 @@ def evaluate(ctx, drv, cases):
     ctx.corr_breaks.sort(key=lambda v: len(v['case'].get('ops', ())) if isinstance(v['case'], dict) else 0)
 
 
+def evaluate_rx(ctx, cases):
+    """regex-filter histories: implementation vs specification only (no model, outside `hypC`)"""
+    results = common.pmap(_run_chunk, common.split(cases, common.NPROC * 4))
+    flat = [r for chunk in results for r in chunk]
+    assert len(flat) == len(cases)
+    for c, impl in zip(cases, flat):
+        ops = c['ops']
+        case = {'ops': ops, 'src': c['src']}
+        steps = impl['steps']
+        nontrivial = any(k and steps[k - 1]['obs'] and steps[k - 1]['obs']['pieces'] is not None
+                         and ops[k]['k'] not in ('generate', 'setComment') for k in range(len(steps)))
+        ctx.case(key=json.dumps(ops, sort_keys=True), nontrivial=nontrivial, kind='rx-history/' + c['src'].split(':')[0])
+        ctx.dist['outside-hyp:no-model(regex-filters)'] += 1
+        failed_batch = False
+        for k, st in enumerate(steps):
+            op = ops[k]
+            ctx.dist['op/' + op['k']] += 1
+            if st['dev']:
+                pre = steps[k - 1]['obs'] if k else impl['init']
+                observed = {'step': k, 'op': op, 'codes': st['dev'], 'res': st['res'], 'pre': pre,
+                            'post': st['obs'], 'hyp': False}
+                fid = ctx.violation('after operation %d (%s) the torrent violates C09: %s'
+                                    % (k, op['k'], ', '.join(st['dev'])), case,
+                                    'the listed files follow the filter lists, hashes do not survive a change, '
+                                    'an invalid regular expression is rejected with re.error',
+                                    observed, finding_matchers=MATCHERS)
+                if fid is not None and fid == c.get('witness'):
+                    c['reproduced'] = True
+                break
+            if st['res'] == 're.error':
+                ctx.dist['rx-rejected/' + op['k']] += 1
+                failed_batch = failed_batch or op['k'] in ('rxExtend', 'rxIadd', 'rxSet', 'rxSetSlice')
+            elif failed_batch and op['k'] in W.RX_OPS:
+                ctx.dist['rx-edit-after-failed-batch' + ('/held' if op.get('held') else '')] += 1
+            if st['obs']['ready']:
+                ctx.dist['ready-and-verified'] += 1
+        if c.get('witness') and not c.get('reproduced') and c['witness'] not in ctx.not_reproduced:
+            ctx.not_reproduced.append(c['witness'])
+        ctx.sample({'case': case, 'impl_last': steps[-1] if steps else None}, limit=6)
+    ctx.violations.sort(key=lambda v: len(v['case'].get('ops', ())) if isinstance(v['case'], dict) else 0)
+
+
 def calc_cases(ctx):
     rng = ctx.rng
     sizes = set()
@@ -495,7 +724,8 @@ def run(ctx, drv):
         'file system = the fixed content world (no concurrent change of the content between operations)',
         'File sizes are non-negative; paths are ASCII without separators inside components; listed paths are pairwise distinct',
         'relative File paths do not exist below the current directory (the empty-file filter of filter_files looks there); content trees contain no empty files',
-        'glob patterns of the forms *s and *s* (fnmatch translated by hand); regex filters are not exercised (same code path through _filters_changed)',
+        'glob patterns of the forms *s and *s* (fnmatch translated by hand) in the model; regex filter lists (valid/invalid patterns, failing batch updates, held lists) are exercised implementation-vs-specification only, without a model (counter outside-hyp:no-model(regex-filters))',
+        're.error is the documented exception of the regex filter lists; patterns are insensitive to the basepath.parent/filepath prefix quirk of filter_files',
         'lst[:] = value on a filter list only with duplicate-free values disjoint from the current list (MonitoredList slice assignment is C16)',
         'calculate_piece_size: float log2/pow modelled on integers; compared for sizes < 2^40',
         'generate() stores the SHA-1 chunks of the current layout (C01) - checked here by an independent re-hash of the files',
@@ -503,6 +733,7 @@ def run(ctx, drv):
     ]
     ctx.notes['trusted_base'] = ['harness/impl/attrs_world.py: projection of the real Torrent and the implementation-side evaluation of C09']
     evaluate_calc(ctx, drv, calc_cases(ctx))
+    evaluate_rx(ctx, rx_cases(ctx))
     evaluate(ctx, drv, gen_cases(ctx))
     ctx.exhaustive = False
 
@@ -521,6 +752,8 @@ def search(ctx, drv):
                     seeds.append({'ops': p + ops[-1:] + [a], 'src': 'search'})
     evaluate(ctx, drv, seeds)
     if not ctx.violations:
+        evaluate_rx(ctx, [c for c in rx_cases(ctx, scale=2.0) if c['src'] == 'random-rx'])
+    if not ctx.violations:
         evaluate(ctx, drv, [c for c in gen_cases(ctx, scale=2.0) if c['src'] == 'random'])
 
 
@@ -531,6 +764,9 @@ def replay(ctx, drv, rp):
         evaluate_calc(ctx, drv, [(cc['size'], cc['min'], cc['max'])])
     else:
         ctx.findings = []      # a replay reports the raw verdict, known findings do not mask it
-        evaluate(ctx, drv, [{'ops': c['ops'], 'src': c.get('src', 'replay')}])
+        if _is_rx(c['ops']):
+            evaluate_rx(ctx, [{'ops': c['ops'], 'src': c.get('src', 'replay')}])
+        else:
+            evaluate(ctx, drv, [{'ops': c['ops'], 'src': c.get('src', 'replay')}])
     return {'fails': bool(ctx.violations or ctx.corr_breaks), 'violations': ctx.violations,
             'correspondence_breaks': ctx.corr_breaks}
